@@ -29,10 +29,12 @@ void harness(void)
     WIT(size_t, k);
     WIT(size_t, j);
     WIT(size_t, f);
-    WIT_ARR(char, cs, 6);
-    WIT_ARR(char, cd, 6);
-    __CPROVER_assume(C08_OFF_OK(offs) && C08_OFF_OK(offd) && ss <= VC_MAXOBJ && n <= VC_MAXOBJ && Ld < VC_MAXOBJ && tail <= 8);
-#ifdef C08_BOUNDED
+    WIT_ARR(char, cs, 24);
+    WIT_ARR(char, cd, 24);
+    __CPROVER_assume(C08_OFF_OK(offs) && C08_OFF_OK(offd) && tail <= 8);
+#ifndef C08_BOUNDED
+    __CPROVER_assume(ss <= VC_MAXOBJ && n <= VC_MAXOBJ && Ld < VC_MAXOBJ);
+#else
     __CPROVER_assume(ss == SS && n == N && Ld == 3 && tail == 2);
 #endif
     char *sbase = NEW_OBJ(offs + ss);
